@@ -276,242 +276,309 @@ def releaseClient (s : State) (cl : Nat) : State :=
       { s.modClient cl (fun c => { c with hold := 0, lastSeen := s.now }) with idle := s.idle ++ [cl] }
     else s.modClient cl (fun c => { c with hold := c.hold - 1 })
 
-/-- Remove the records nobody can reach any more: not live, no share
-reservation left, no I/O referring to it (Go: garbage). -/
+/-- Remove the records nobody can reach any more: not in the maps and no I/O
+referring to it (Go: garbage). -/
 def gc (s : State) : State :=
-  { s with files := s.files.filter (fun f =>
-      f.live || !f.count.isZero || s.ios.any (fun io => io.sid == f.sid)) }
+  { s with files := s.files.filter (fun f => f.live || s.ios.any (fun io => io.sid == f.sid)) }
 
 end State
 
-open State in
+/-! ### The actions, one function each
+
+`apply` below dispatches to these (and does nothing once `panic` is set). -/
+namespace Do
+open State
+
+def tick (s : State) (d : Nat) : State := { s with clock := s.clock + d }
+
+/-- `enter()`: `now := p.clock.Now(); if p.now.Before(now) { p.now = now }` -/
+def setNow (s : State) : State := { s with now := max s.now s.clock }
+
+/-- SETCLIENTID / EXCHANGE_ID creating a new record: `insertIntoIdleList` -/
+def newClient (s : State) (long ver : Nat) : State :=
+  if s.clients.any (fun c => c.long == long && c.ver == ver) then s else
+  let c : Client := { id := s.nextId, long := long, ver := ver, confirmed := false, hold := 0,
+                      lastSeen := s.now, sessions := [] }
+  { s with clients := s.clients ++ [c], idle := s.idle ++ [s.nextId], nextId := s.nextId + 1 }
+
+/-- `hold(p); defer release(p)` within one lock-held segment (RENEW, LOCKT,
+RELEASE_LOCKOWNER, SETCLIENTID_CONFIRM, CREATE_SESSION, 4.0 transactions) -/
+def touch (s : State) (cl : Nat) : State := releaseClient (holdClient s cl) cl
+
+/-- SETCLIENTID_CONFIRM: `client.confirmed = &confirmedClientState{…}` (panics
+"Attempted to replace confirmed client record"); CREATE_SESSION:
+`client.confirmedIncarnation = cis` -/
+def confirmClient (s : State) (cl : Nat) : State :=
+  match s.getClient cl with
+  | none => s
+  | some c =>
+    if s.clients.any (fun d => d.long == c.long && d.confirmed && d.id != cl) then
+      s.fail "Attempted to replace confirmed client record"
+    else s.modClient cl (fun c => { c with confirmed := true })
+
+/-- tail of `clientConfirmationState.remove` / `clientIncarnationState.remove`:
+the panics of the latter, and the former's "Removing open-owners should have
+removed lock-owners as well" -/
+def dropClient (s : State) (cl : Nat) : State :=
+  match s.getClient cl with
+  | none => s
+  | some c =>
+    if c.hold != 0 then s.fail "Attempted to remove a client that was running one or more blocking operations"
+    else if s.files.any (fun f => f.live && f.cl == cl) then s.fail "Client still has one or more open-owner files"
+    else if s.oowners.any (fun o => o.cl == cl) then s.fail "Client still has one or more open-owners"
+    else if s.lowners.any (fun l => l.cl == cl) then s.fail "Removing open-owners should have removed lock-owners as well"
+    else if !c.sessions.isEmpty then s.fail "Client incarnation still has one or more sessions"
+    else { s with clients := s.clients.filter (fun c => c.id != cl), idle := s.idle.erase cl }
+
+/-- CREATE_SESSION / `sessionState.remove` -/
+def addSession (s : State) (cl k : Nat) : State := s.modClient cl (fun c => { c with sessions := c.sessions ++ [k] })
+def delSession (s : State) (cl k : Nat) : State := s.modClient cl (fun c => { c with sessions := c.sessions.erase k })
+
+/-- 4.1 `opSequence`: `session.clientIncarnation.hold()`; 4.0 `startTransaction`
+of OPEN: `oos.confirmedClient.confirmation.hold(p)` -/
+def holdBegin (s : State) (tag cl : Nat) : State :=
+  if (s.getClient cl).isNone || s.holders.any (fun h => h.tag == tag) then s else
+  holdClient { s with holders := s.holders ++ [{ tag := tag, cl := cl }] } cl
+
+/-- 4.1 end of `opSequence`: `release(p)`; 4.0 `openOwnerTransaction.complete` -/
+def holdEnd (s : State) (tag : Nat) : State :=
+  match s.holders.find? (fun h => h.tag == tag) with
+  | none => s
+  | some h => releaseClient { s with holders := s.holders.filter (fun h => h.tag != tag) } h.cl
+
+/-- 4.0 open-owner records: `confirmedClient.openOwners[key] = oos` and updates -/
+def ooSet (s : State) (oo : OOwner) : State :=
+  match s.getClient oo.cl with
+  | none => s
+  | some c =>
+    if !c.confirmed then s else
+    if s.oowners.any (fun o => o.cl == oo.cl && o.key == oo.key) then
+      { s with oowners := s.oowners.map (fun o => if o.cl == oo.cl && o.key == oo.key then oo else o) }
+    else { s with oowners := s.oowners ++ [oo] }
+
+/-- `delete(oos.confirmedClient.openOwners, oos.key)` (after `reinitialize`) -/
+def ooDel (s : State) (cl key : Nat) : State :=
+  if s.files.any (fun f => f.live && f.cl == cl && f.owner == key) then
+    s.fail "open-owner removed while it has files"
+  else { s with oowners := s.oowners.filter (fun o => !(o.cl == cl && o.key == key)) }
+
+/-- LOCK with new_lock_owner: `lockOwners[key] = los` / `cis.lockOwnersByOwner[key] = los` (fix adfdf7d) -/
+def loRegister (s : State) (cl key : Nat) : State :=
+  if (s.getClient cl).isNone || (s.getLO cl key).isSome then s else
+  let l : LOwner := { id := s.nextId, cl := cl, key := key, lastSeq := 0, resp := none }
+  { s with lowners := s.lowners ++ [l], nextId := s.nextId + 1 }
+
+/-- 4.0 `if len(los.files) == 0 { delete(lockOwners, key) }`; 4.1 `decreaseFileCount` -/
+def loPrune (s : State) (id : Nat) : State :=
+  if s.files.any (fun f => f.lofs.any (fun l => l.lo == id)) then s
+  else { s with lowners := s.lowners.filter (fun l => l.id != id) }
+
+def loSet (s : State) (id lastSeq : Nat) (resp : Option (Nat × String × Nat × Nat)) : State :=
+  { s with lowners := s.lowners.map (fun l => if l.id == id then { l with lastSeq := lastSeq, resp := resp } else l) }
+
+/-- a call `VirtualOpenChild` / `VirtualOpenSelf` that succeeded (tags are request ids: unique) -/
+def vopen (s : State) (tag leaf : Nat) (m : Mask) (create trunc : Bool) : State :=
+  if s.temps.any (fun t => t.tag == tag) then s else
+  { s with log := s.log ++ [.openEv leaf m create trunc], temps := s.temps ++ [{ tag := tag, leaf := leaf, share := m }] }
+
+/-- special-state-ID I/O cleanup: `currentLeaf.VirtualClose(shareAccess)` -/
+def tempClose (s : State) (tag : Nat) : State :=
+  match s.getTemp tag with
+  | none => s
+  | some t => { s with temps := s.temps.filter (fun t => t.tag != tag), log := s.log ++ [.closeEv t.leaf t.share] }
+
+/-- 4.1 OPEN CLAIM_PREVIOUS without state: `ll.leaves = append(…{leaf, shareAccess})` -/
+def tempToPend (s : State) (tag : Nat) : State :=
+  match s.getTemp tag with
+  | none => s
+  | some t => pushPend { s with temps := s.temps.filter (fun t => t.tag != tag) } t.leaf t.share
+
+/-- OPEN creating a new open-owner file: `openedFilesPool.Open(handle, leaf)`,
+`shareCount.upgrade(&oofs.shareAccess, shareAccess)` on the zero value -/
+def openNew (s : State) (tag cl owner : Nat) : State :=
+  match s.getTemp tag with
+  | none => s
+  | some t =>
+    if (s.getClient cl).isNone then s else
+    let u := upgrade ShareCount.zero Mask.none t.share
+    let f : OFile := { sid := s.nextId, cl := cl, owner := owner, file := t.leaf, share := u.2.1, count := u.1,
+                       lofs := [], live := true }
+    let pool := if (s.getPool t.leaf).isSome
+      then s.pool.map (fun e => if e.file == t.leaf then { e with useCount := e.useCount + 1 } else e)
+      else s.pool ++ [{ file := t.leaf, useCount := 1, locks := [] }]
+    { s with files := s.files ++ [f], pool := pool, temps := s.temps.filter (fun t => t.tag != tag),
+             nextId := s.nextId + 1 }
+
+/-- `oofs.upgrade(shareAccess, leaf, ll)` -/
+def openUpgrade (s : State) (tag sid : Nat) : State :=
+  match s.getTemp tag, s.getFile sid with
+  | some t, some f =>
+    if !f.live || f.file != t.leaf then s else
+    let u := upgrade f.count f.share t.share
+    pushPend ({ s with temps := s.temps.filter (fun t => t.tag != tag) }.modFile sid
+      (fun f => { f with count := u.1, share := u.2.1 })) t.leaf u.2.2
+  | _, _ => s
+
+/-- `oofs.downgradeShareAccess(&oofs.shareAccess, new, ll)` (OPEN_DOWNGRADE after
+its `shareAccess&^oofs.shareAccess != 0` check; CLOSE / removeStart with 0) -/
+def downgradeOpen (s : State) (sid : Nat) (new : Mask) : State :=
+  match s.getFile sid with
+  | none => s
+  | some f =>
+    if !f.live || !new.subset f.share then s else
+    match downgrade f.count f.share new with
+    | none => s.fail "Attempted to decrease zero reference count"
+    | some (c, z) => pushPend (s.modFile sid (fun f => { f with count := c, share := new })) f.file z
+
+/-- LOCK creating a lock-owner file: `shareAccess: oofs.shareCount.clone(oofs.shareAccess)` -/
+def addLofs (s : State) (sid lo : Nat) : State :=
+  match s.getFile sid with
+  | none => s
+  | some f =>
+    if !f.live || f.lofs.any (fun l => l.lo == lo) || !s.lowners.any (fun l => l.id == lo && l.cl == f.cl) then s else
+    match clone f.count f.share with
+    | none => s.fail "Attempted to increase zero reference count"
+    | some c =>
+      let l : LOFile := { sid := s.nextId, lo := lo, share := f.share, lockCount := 0 }
+      let s' := s.modFile sid (fun f => { f with count := c, lofs := f.lofs ++ [l] })
+      { s' with nextId := s.nextId + 1 }
+
+/-- `nfs41LockOwnerFileState.remove` (panics "Lock-owner file still holds one or
+more locks"); tail of `nfs40LockOwnerFileState.remove` ("Failed to release locks") -/
+def removeLofs (s : State) (sid lsid : Nat) : State :=
+  match s.getFile sid with
+  | none => s
+  | some f =>
+    match f.lofs.find? (fun l => l.sid == lsid) with
+    | none => s
+    | some l =>
+      if l.lockCount != 0 then s.fail "Lock-owner file still holds one or more locks" else
+      match downgrade f.count l.share Mask.none with
+      | none => s.fail "Attempted to decrease zero reference count"
+      | some (c, z) =>
+        pushPend (s.modFile sid (fun f => { f with count := c, lofs := f.lofs.filter (fun l => l.sid != lsid) }))
+          f.file z
+
+/-- `if lofs.lockCount > 0 { lofs.lockCount += openedFile.UnlockAll(&lockOwner.owner) }` -/
+def unlockAllLofs (s : State) (sid lsid : Nat) : State :=
+  match s.getFile sid with
+  | none => s
+  | some f =>
+    match f.lofs.find? (fun l => l.sid == lsid), s.getPool f.file with
+    | some l, some e =>
+      if l.lockCount ≤ 0 then s else
+      let r := BRL.set e.locks ⟨0, LockRange.maxU64, l.lo, .unlocked⟩
+      (s.modPool f.file (fun e => { e with locks := r.1 })).modFile sid (fun f =>
+        { f with lofs := f.lofs.map (fun l => if l.sid == lsid then { l with lockCount := l.lockCount + r.2 } else l) })
+    | _, _ => s
+
+/-- `OpenedFile.Lock` / `Unlock` after `Test`: `lofs.lockCount += locks.Set(&lock)`
+(panics "Negative lock count") -/
+def lockSet (s : State) (sid lsid : Nat) (lk : BRL.Lock) : State :=
+  match s.getFile sid with
+  | none => s
+  | some f =>
+    match f.lofs.find? (fun l => l.sid == lsid), s.getPool f.file with
+    | some l, some e =>
+      let r := BRL.set e.locks { lk with owner := l.lo }
+      if l.lockCount + r.2 < 0 then s.fail "Negative lock count" else
+      (s.modPool f.file (fun e => { e with locks := r.1 })).modFile sid (fun f =>
+        { f with lofs := f.lofs.map (fun l => if l.sid == lsid then { l with lockCount := l.lockCount + r.2 } else l) })
+    | _, _ => s
+
+/-- 4.0 `removeFinalize`, tail of 4.1 `nfs41OpenOwnerFileState.remove`:
+`oofs.openedFile.Close()` and removal from the maps.  Every call site has run
+`removeStart` / the first half of `remove` before (no share reservation and no
+lock-owner file left); the action does nothing otherwise. -/
+def finalize (s : State) (sid : Nat) : State :=
+  match s.getFile sid with
+  | none => s
+  | some f =>
+    if !f.live || !f.share.isNone || !f.lofs.isEmpty then s else
+    match s.getPool f.file with
+    | none => s.fail "Attempted to decrease zero reference count"
+    | some e =>
+      if e.useCount = 0 then s.fail "Attempted to decrease zero reference count" else
+      let pool := if e.useCount = 1 then s.pool.filter (fun e => e.file != f.file)
+        else s.pool.map (fun e => if e.file == f.file then { e with useCount := e.useCount - 1 } else e)
+      gc ({ s with pool := pool }.modFile sid (fun f => { f with live := false }))
+
+/-- `getOpenedLeafWithRegularStateID`: `oofs.shareCount.clone(shareAccess)` (+ 4.0 `hold`) -/
+def ioBegin (s : State) (tag sid : Nat) (m : Mask) (holds : Bool) : State :=
+  match s.getFile sid with
+  | none => s
+  | some f =>
+    if !f.live || s.ios.any (fun io => io.tag == tag) || (s.getClient f.cl).isNone then s else
+    match clone f.count m with
+    | none => s.fail "Attempted to increase zero reference count"
+    | some c =>
+      let io : IOrec := { tag := tag, sid := sid, cl := f.cl, share := m, holds := holds }
+      let s1 := s.modFile sid (fun f => { f with count := c })
+      let s2 := { s1 with ios := s.ios ++ [io] }
+      if holds then holdClient s2 f.cl else s2
+
+/-- its cleanup closure: `oofs.downgradeShareAccess(&clonedShareAccess, 0, &ll)` (+ `release`) -/
+def ioEnd (s : State) (tag : Nat) : State :=
+  match s.ios.find? (fun io => io.tag == tag) with
+  | none => s
+  | some io =>
+    match s.getFile io.sid with
+    | none => s
+    | some f =>
+      match downgrade f.count io.share Mask.none with
+      | none => s.fail "Attempted to decrease zero reference count"
+      | some (c, z) =>
+        let s1 := pushPend ({ s with ios := s.ios.filter (fun io => io.tag != tag) }.modFile io.sid
+          (fun f => { f with count := c })) f.file z
+        gc (if io.holds then releaseClient s1 io.cl else s1)
+
+/-- `ll.closeAll()` of the current request: one `VirtualClose` per step -/
+def flush (s : State) : State :=
+  match s.pend.find? (fun p => p.1 == s.cur) with
+  | none => s
+  | some (_, leaf, m) =>
+    { s with pend := s.pend.eraseP (fun p => p.1 == s.cur), log := s.log ++ [.closeEv leaf m] }
+
+def setCur (s : State) (tag : Nat) : State := { s with cur := tag }
+def setProto (s : State) (p : Proto) : State := { s with proto := p }
+
+end Do
+
 /-- One core action. -/
 def apply (s : State) (a : Act) : State :=
   if s.panic.isSome then s else
   match a with
-  | .tick d => { s with clock := s.clock + d }
-  -- `enter()`: `now := p.clock.Now(); if p.now.Before(now) { p.now = now }`
-  | .setNow => { s with now := max s.now s.clock }
-  -- SETCLIENTID / EXCHANGE_ID creating a new record: `insertIntoIdleList`
-  | .newClient long ver =>
-    if s.clients.any (fun c => c.long == long && c.ver == ver) then s else
-    { s with
-      clients := s.clients ++ [{ id := s.nextId, long, ver, confirmed := false, hold := 0,
-                                 lastSeen := s.now, sessions := [] }]
-      idle := s.idle ++ [s.nextId]
-      nextId := s.nextId + 1 }
-  -- `hold(p); defer release(p)` within one lock-held segment (RENEW, LOCKT,
-  -- RELEASE_LOCKOWNER, SETCLIENTID_CONFIRM, CREATE_SESSION, 4.0 transactions)
-  | .touch cl => releaseClient (holdClient s cl) cl
-  -- SETCLIENTID_CONFIRM: `client.confirmed = &confirmedClientState{…}` (panics
-  -- "Attempted to replace confirmed client record"); CREATE_SESSION:
-  -- `client.confirmedIncarnation = cis`
-  | .confirmClient cl =>
-    match s.getClient cl with
-    | none => s
-    | some c =>
-      if s.clients.any (fun d => d.long == c.long && d.confirmed && d.id != cl) then
-        s.fail "Attempted to replace confirmed client record"
-      else s.modClient cl (fun c => { c with confirmed := true })
-  -- tail of `clientConfirmationState.remove` / `clientIncarnationState.remove`:
-  -- the panics of the latter, and the former's "Removing open-owners should have
-  -- removed lock-owners as well"
-  | .dropClient cl =>
-    match s.getClient cl with
-    | none => s
-    | some c =>
-      if c.hold != 0 then s.fail "Attempted to remove a client that was running one or more blocking operations"
-      else if s.files.any (fun f => f.live && f.cl == cl) then s.fail "Client still has one or more open-owner files"
-      else if s.oowners.any (fun o => o.cl == cl) then s.fail "Client still has one or more open-owners"
-      else if s.lowners.any (fun l => l.cl == cl) then s.fail "Removing open-owners should have removed lock-owners as well"
-      else if !c.sessions.isEmpty then s.fail "Client incarnation still has one or more sessions"
-      else { s with clients := s.clients.filter (fun c => c.id != cl), idle := s.idle.erase cl }
-  -- CREATE_SESSION / `sessionState.remove`
-  | .addSession cl k => s.modClient cl (fun c => { c with sessions := c.sessions ++ [k] })
-  | .delSession cl k => s.modClient cl (fun c => { c with sessions := c.sessions.erase k })
-  -- 4.1 `opSequence`: `session.clientIncarnation.hold()`; 4.0 `startTransaction`
-  -- of OPEN: `oos.confirmedClient.confirmation.hold(p)`
-  | .holdBegin tag cl =>
-    if (s.getClient cl).isNone || s.holders.any (fun h => h.tag == tag) then s else
-    holdClient { s with holders := s.holders ++ [{ tag, cl }] } cl
-  -- 4.1 end of `opSequence`: `release(p)`; 4.0 `openOwnerTransaction.complete`
-  | .holdEnd tag =>
-    match s.holders.find? (fun h => h.tag == tag) with
-    | none => s
-    | some h => releaseClient { s with holders := s.holders.filter (fun h => h.tag != tag) } h.cl
-  -- 4.0 open-owner records: `confirmedClient.openOwners[key] = oos` and updates
-  | .ooSet oo =>
-    match s.getClient oo.cl with
-    | none => s
-    | some c =>
-      if !c.confirmed then s else
-      if s.oowners.any (fun o => o.cl == oo.cl && o.key == oo.key) then
-        { s with oowners := s.oowners.map (fun o => if o.cl == oo.cl && o.key == oo.key then oo else o) }
-      else { s with oowners := s.oowners ++ [oo] }
-  -- `delete(oos.confirmedClient.openOwners, oos.key)` (after `reinitialize`)
-  | .ooDel cl key =>
-    if s.files.any (fun f => f.live && f.cl == cl && f.owner == key) then
-      s.fail "open-owner removed while it has files"
-    else { s with oowners := s.oowners.filter (fun o => !(o.cl == cl && o.key == key)) }
-  -- LOCK with new_lock_owner: `lockOwners[key] = los` / `cis.lockOwnersByOwner[key] = los` (fix adfdf7d)
-  | .loRegister cl key =>
-    if (s.getClient cl).isNone || (s.getLO cl key).isSome then s else
-    { s with lowners := s.lowners ++ [{ id := s.nextId, cl, key, lastSeq := 0, resp := none }],
-             nextId := s.nextId + 1 }
-  -- 4.0 `if len(los.files) == 0 { delete(lockOwners, key) }`; 4.1 `decreaseFileCount`
-  | .loPrune id =>
-    if s.files.any (fun f => f.lofs.any (fun l => l.lo == id)) then s
-    else { s with lowners := s.lowners.filter (fun l => l.id != id) }
-  | .loSet id lastSeq resp =>
-    { s with lowners := s.lowners.map (fun l => if l.id == id then { l with lastSeq, resp } else l) }
-  -- a call `VirtualOpenChild` / `VirtualOpenSelf` that succeeded
-  | .vopen tag leaf m create trunc =>
-    { s with log := s.log ++ [.openEv leaf m create trunc], temps := s.temps ++ [{ tag, leaf, share := m }] }
-  -- special-state-ID I/O cleanup: `currentLeaf.VirtualClose(shareAccess)`
-  | .tempClose tag =>
-    match s.getTemp tag with
-    | none => s
-    | some t => { s with temps := s.temps.filter (fun t => t.tag != tag), log := s.log ++ [.closeEv t.leaf t.share] }
-  -- 4.1 OPEN CLAIM_PREVIOUS without state: `ll.leaves = append(…{leaf, shareAccess})`
-  | .tempToPend tag =>
-    match s.getTemp tag with
-    | none => s
-    | some t => pushPend { s with temps := s.temps.filter (fun t => t.tag != tag) } t.leaf t.share
-  -- OPEN creating a new open-owner file: `openedFilesPool.Open(handle, leaf)`,
-  -- `shareCount.upgrade(&oofs.shareAccess, shareAccess)` on the zero value
-  | .openNew tag cl owner =>
-    match s.getTemp tag with
-    | none => s
-    | some t =>
-      if (s.getClient cl).isNone then s else
-      let u := upgrade ShareCount.zero Mask.none t.share
-      let f : OFile := { sid := s.nextId, cl, owner, file := t.leaf, share := u.2.1, count := u.1,
-                         lofs := [], live := true }
-      let pool := if (s.getPool t.leaf).isSome
-        then s.pool.map (fun e => if e.file == t.leaf then { e with useCount := e.useCount + 1 } else e)
-        else s.pool ++ [{ file := t.leaf, useCount := 1, locks := [] }]
-      { s with files := s.files ++ [f], pool, temps := s.temps.filter (fun t => t.tag != tag),
-               nextId := s.nextId + 1 }
-  -- `oofs.upgrade(shareAccess, leaf, ll)`
-  | .openUpgrade tag sid =>
-    match s.getTemp tag, s.getFile sid with
-    | some t, some f =>
-      if !f.live || f.file != t.leaf then s else
-      let u := upgrade f.count f.share t.share
-      pushPend ({ s with temps := s.temps.filter (fun t => t.tag != tag) }.modFile sid
-        (fun f => { f with count := u.1, share := u.2.1 })) t.leaf u.2.2
-    | _, _ => s
-  -- `oofs.downgradeShareAccess(&oofs.shareAccess, new, ll)` (OPEN_DOWNGRADE after
-  -- its `shareAccess&^oofs.shareAccess != 0` check; CLOSE / removeStart with 0)
-  | .downgradeOpen sid new =>
-    match s.getFile sid with
-    | none => s
-    | some f =>
-      if !f.live || !new.subset f.share then s else
-      match downgrade f.count f.share new with
-      | none => s.fail "Attempted to decrease zero reference count"
-      | some (c, z) => pushPend (s.modFile sid (fun f => { f with count := c, share := new })) f.file z
-  -- LOCK creating a lock-owner file: `shareAccess: oofs.shareCount.clone(oofs.shareAccess)`
-  | .addLofs sid lo =>
-    match s.getFile sid with
-    | none => s
-    | some f =>
-      if !f.live || f.lofs.any (fun l => l.lo == lo) || !s.lowners.any (fun l => l.id == lo && l.cl == f.cl) then s else
-      match clone f.count f.share with
-      | none => s.fail "Attempted to increase zero reference count"
-      | some c =>
-        let l : LOFile := { sid := s.nextId, lo := lo, share := f.share, lockCount := 0 }
-        let s' := s.modFile sid (fun f => { f with count := c, lofs := f.lofs ++ [l] })
-        { s' with nextId := s.nextId + 1 }
-  -- `nfs41LockOwnerFileState.remove` (panics "Lock-owner file still holds one or
-  -- more locks"); tail of `nfs40LockOwnerFileState.remove` ("Failed to release locks")
-  | .removeLofs sid lsid =>
-    match s.getFile sid with
-    | none => s
-    | some f =>
-      match f.lofs.find? (fun l => l.sid == lsid) with
-      | none => s
-      | some l =>
-        if l.lockCount != 0 then s.fail "Lock-owner file still holds one or more locks" else
-        match downgrade f.count l.share Mask.none with
-        | none => s.fail "Attempted to decrease zero reference count"
-        | some (c, z) =>
-          pushPend (s.modFile sid (fun f => { f with count := c, lofs := f.lofs.filter (fun l => l.sid != lsid) }))
-            f.file z
-  -- `if lofs.lockCount > 0 { lofs.lockCount += openedFile.UnlockAll(&lockOwner.owner) }`
-  | .unlockAllLofs sid lsid =>
-    match s.getFile sid with
-    | none => s
-    | some f =>
-      match f.lofs.find? (fun l => l.sid == lsid), s.getPool f.file with
-      | some l, some e =>
-        if l.lockCount ≤ 0 then s else
-        let r := BRL.set e.locks ⟨0, LockRange.maxU64, l.lo, .unlocked⟩
-        (s.modPool f.file (fun e => { e with locks := r.1 })).modFile sid (fun f =>
-          { f with lofs := f.lofs.map (fun l => if l.sid == lsid then { l with lockCount := l.lockCount + r.2 } else l) })
-      | _, _ => s
-  -- `OpenedFile.Lock` / `Unlock` after `Test`: `lofs.lockCount += locks.Set(&lock)`
-  -- (panics "Negative lock count")
-  | .lockSet sid lsid lk =>
-    match s.getFile sid with
-    | none => s
-    | some f =>
-      match f.lofs.find? (fun l => l.sid == lsid), s.getPool f.file with
-      | some l, some e =>
-        let r := BRL.set e.locks { lk with owner := l.lo }
-        if l.lockCount + r.2 < 0 then s.fail "Negative lock count" else
-        (s.modPool f.file (fun e => { e with locks := r.1 })).modFile sid (fun f =>
-          { f with lofs := f.lofs.map (fun l => if l.sid == lsid then { l with lockCount := l.lockCount + r.2 } else l) })
-      | _, _ => s
-  -- 4.0 `removeFinalize`, tail of 4.1 `nfs41OpenOwnerFileState.remove`:
-  -- `oofs.openedFile.Close()` and removal from the maps
-  | .finalize sid =>
-    match s.getFile sid with
-    | none => s
-    | some f =>
-      if !f.live then s else
-      match s.getPool f.file with
-      | none => s.fail "Attempted to decrease zero reference count"
-      | some e =>
-        if e.useCount = 0 then s.fail "Attempted to decrease zero reference count" else
-        let pool := if e.useCount = 1 then s.pool.filter (fun e => e.file != f.file)
-          else s.pool.map (fun e => if e.file == f.file then { e with useCount := e.useCount - 1 } else e)
-        gc ({ s with pool := pool }.modFile sid (fun f => { f with live := false }))
-  -- `getOpenedLeafWithRegularStateID`: `oofs.shareCount.clone(shareAccess)` (+ 4.0 `hold`)
-  | .ioBegin tag sid m holds =>
-    match s.getFile sid with
-    | none => s
-    | some f =>
-      if !f.live || s.ios.any (fun io => io.tag == tag) || (s.getClient f.cl).isNone then s else
-      match clone f.count m with
-      | none => s.fail "Attempted to increase zero reference count"
-      | some c =>
-        let io : IOrec := { tag := tag, sid := sid, cl := f.cl, share := m, holds := holds }
-        let s1 := s.modFile sid (fun f => { f with count := c })
-        let s2 := { s1 with ios := s.ios ++ [io] }
-        if holds then holdClient s2 f.cl else s2
-  -- its cleanup closure: `oofs.downgradeShareAccess(&clonedShareAccess, 0, &ll)` (+ `release`)
-  | .ioEnd tag =>
-    match s.ios.find? (fun io => io.tag == tag) with
-    | none => s
-    | some io =>
-      match s.getFile io.sid with
-      | none => s
-      | some f =>
-        match downgrade f.count io.share Mask.none with
-        | none => s.fail "Attempted to decrease zero reference count"
-        | some (c, z) =>
-          let s := pushPend ({ s with ios := s.ios.filter (fun io => io.tag != tag) }.modFile io.sid
-            (fun f => { f with count := c })) f.file z
-          gc (if io.holds then releaseClient s io.cl else s)
-  -- `ll.closeAll()` of the current request: one `VirtualClose` per step
-  | .flush =>
-    match s.pend.find? (fun p => p.1 == s.cur) with
-    | none => s
-    | some (_, leaf, m) =>
-      { s with pend := s.pend.eraseP (fun p => p.1 == s.cur), log := s.log ++ [.closeEv leaf m] }
-  | .setCur tag => { s with cur := tag }
-  | .proto p => { s with proto := p }
+  | .tick d => Do.tick s d
+  | .setNow => Do.setNow s
+  | .newClient long ver => Do.newClient s long ver
+  | .touch cl => Do.touch s cl
+  | .confirmClient cl => Do.confirmClient s cl
+  | .dropClient cl => Do.dropClient s cl
+  | .addSession cl k => Do.addSession s cl k
+  | .delSession cl k => Do.delSession s cl k
+  | .holdBegin tag cl => Do.holdBegin s tag cl
+  | .holdEnd tag => Do.holdEnd s tag
+  | .ooSet oo => Do.ooSet s oo
+  | .ooDel cl key => Do.ooDel s cl key
+  | .loRegister cl key => Do.loRegister s cl key
+  | .loPrune id => Do.loPrune s id
+  | .loSet id lastSeq resp => Do.loSet s id lastSeq resp
+  | .vopen tag leaf m create trunc => Do.vopen s tag leaf m create trunc
+  | .tempClose tag => Do.tempClose s tag
+  | .tempToPend tag => Do.tempToPend s tag
+  | .openNew tag cl owner => Do.openNew s tag cl owner
+  | .openUpgrade tag sid => Do.openUpgrade s tag sid
+  | .downgradeOpen sid new => Do.downgradeOpen s sid new
+  | .addLofs sid lo => Do.addLofs s sid lo
+  | .removeLofs sid lsid => Do.removeLofs s sid lsid
+  | .unlockAllLofs sid lsid => Do.unlockAllLofs s sid lsid
+  | .lockSet sid lsid lk => Do.lockSet s sid lsid lk
+  | .finalize sid => Do.finalize s sid
+  | .ioBegin tag sid m holds => Do.ioBegin s tag sid m holds
+  | .ioEnd tag => Do.ioEnd s tag
+  | .flush => Do.flush s
+  | .setCur tag => Do.setCur s tag
+  | .proto p => Do.setProto s p
 
 def applyAll (s : State) (acts : List Act) : State := acts.foldl apply s
 
@@ -644,62 +711,82 @@ def flushAll : PlanM Unit := do
   for p in s.pend do
     if p.1 == s.cur then emit .flush
 
-/-- `removeStart` (40) / first half of `nfs41OpenOwnerFileState.remove` (41). -/
-def closeStart (sid : Nat) : PlanM Unit := do
-  let s ← cur
+/-! ### Removal of open-owner files, open-owners and client records
+
+These are pure functions from the state (at the beginning of the removal) to
+the list of core actions, so that theorems can talk about them
+(`Properties/C18.lean`: `expiry_empties`, `closed_means_closed`); the plan
+emits exactly these lists. -/
+
+/-- `removeStart` (40) / first half of `nfs41OpenOwnerFileState.remove` (41):
+unlock and remove every lock-owner file, then give up the open's own share
+reservation. -/
+def closeStartActs (s : State) (sid : Nat) : List Act :=
   match s.getFile sid with
-  | none => pure ()
+  | none => []
   | some f =>
-    for l in f.lofs do
-      emit (.unlockAllLofs sid l.sid)
-      emit (.removeLofs sid l.sid)
-      emit (.loPrune l.lo)
-    emit (.downgradeOpen sid Mask.none)
+    f.lofs.flatMap (fun l => [Act.unlockAllLofs sid l.sid, Act.removeLofs sid l.sid, Act.loPrune l.lo]) ++
+      [Act.downgradeOpen sid Mask.none]
+
+/-- … followed by `removeFinalize` (40) / the second half of `remove` (41). -/
+def closeAndFinalizeActs (s : State) (sid : Nat) : List Act :=
+  closeStartActs s sid ++ [Act.finalize sid]
+
+/-- 40 `nfs40OpenOwnerState.remove`: `reinitialize` (close every file of the owner) and delete the owner. -/
+def removeOwnerActs (s : State) (cl key : Nat) : List Act :=
+  (s.files.filter (fun f => f.live && f.cl == cl && f.owner == key)).flatMap (fun f => closeAndFinalizeActs s f.sid) ++
+    [Act.ooDel cl key]
+
+/-- 40 `clientConfirmationState.remove` / 41 `clientIncarnationState.emptyAndRemove`:
+close every file of the record, delete its open-owners (40) / sessions (41),
+delete the record. -/
+def removeClientActs (s : State) (cl : Nat) : List Act :=
+  (s.files.filter (fun f => f.live && f.cl == cl)).flatMap (fun f => closeAndFinalizeActs s f.sid) ++
+  ((s.oowners.filter (fun o => o.cl == cl)).map (fun o => Act.ooDel o.cl o.key)) ++
+  (match s.getClient cl with
+   | some c => c.sessions.map (fun k => Act.delSession cl k)
+   | none => []) ++
+  [Act.dropClient cl]
+
+/-- The records `enter()` expires: the idle list, head first, while `lastSeen` is
+more than a lease time ago (`lastSeen.Before(now - lease)`). -/
+def expiredClients (s : State) : List Nat :=
+  s.idle.takeWhile (fun cl => match s.getClient cl with
+    | some c => decide (c.lastSeen + s.lease < s.now)
+    | none => false)
+
+/-- First loop of `enter()`. -/
+def expireActs (s : State) : List Act := (expiredClients s).flatMap (removeClientActs s)
+
+def emitAll (acts : List Act) : PlanM Unit := do
+  for a in acts do emit a
+
+def closeStart (sid : Nat) : PlanM Unit := do
+  emitAll (closeStartActs (← cur) sid)
 
 def closeAndFinalize (sid : Nat) : PlanM Unit := do
-  closeStart sid
-  emit (.finalize sid)
+  emitAll (closeAndFinalizeActs (← cur) sid)
 
-/-- 40 `nfs40OpenOwnerState.remove`: `reinitialize` + removal from the unused list and the client. -/
+/-- 40 `reinitialize` without deleting the owner. -/
 def reinitOwner (cl key : Nat) : PlanM Unit := do
   let s ← cur
-  for f in s.files do
-    if f.live && f.cl == cl && f.owner == key then closeAndFinalize f.sid
+  emitAll ((s.files.filter (fun f => f.live && f.cl == cl && f.owner == key)).flatMap (fun f => closeAndFinalizeActs s f.sid))
 
 def removeOwner40 (cl key : Nat) : PlanM Unit := do
-  reinitOwner cl key
-  emit (.ooDel cl key)
+  emitAll (removeOwnerActs (← cur) cl key)
   modProto fun p => { p with unused := p.unused.filter (fun u => !(u.1 == cl && u.2 == key)) }
 
-/-- 40 `clientConfirmationState.remove` / 41 `clientIncarnationState.emptyAndRemove`. -/
 def removeClient (cl : Nat) : PlanM Unit := do
-  let s ← cur
-  if s.ver == 40 then
-    for o in s.oowners do
-      if o.cl == cl then removeOwner40 o.cl o.key
-  else
-    for f in s.files do
-      if f.live && f.cl == cl then closeAndFinalize f.sid
-    match s.getClient cl with
-    | some c => for k in c.sessions do emit (.delSession cl k)
-    | none => pure ()
-  emit (.dropClient cl)
+  emitAll (removeClientActs (← cur) cl)
+  modProto fun p => { p with unused := p.unused.filter (fun u => u.1 != cl) }
 
 /-- One pass of the expiry loops of `enter()`; returns whether anything was removed. -/
 def expirePass : PlanM Bool := do
   let s ← cur
-  let mut any := false
-  -- idle client records, head first, while expired
-  let mut go := true
-  for cl in s.idle do
-    if go then
-      match s.getClient cl with
-      | some c =>
-        if c.lastSeen + s.lease < s.now then
-          removeClient cl
-          any := true
-        else go := false
-      | none => go := false
+  let victims := expiredClients s
+  emitAll (expireActs s)
+  modProto fun p => { p with unused := p.unused.filter (fun u => !victims.contains u.1) }
+  let mut any := !victims.isEmpty
   if s.ver == 40 then
     let s ← cur
     let mut go2 := true
@@ -1559,6 +1646,7 @@ def planOp (op : Op) : PlanM Unit := do
         | some l =>
           let c := cmpSeq 41 sseq (seqOf s sid)
           if c != St.ok then status c
+          else if l.lockCount > 0 then status St.locksHeld
           else
             emit (.removeLofs f.sid sid)
             emit (.loPrune l.lo)
